@@ -189,7 +189,7 @@ def leg_r(wd, tier, binary, verdict, stub="", cfgs=None, max_paths=None):
             stats["tlc_states"] += r.distinct; stats["tlc_transitions"] += r.generated
             all_paths += [to_path_input(p) for p in paths]
     inp = os.path.join(wd, "replay_in.json")
-    json.dump({"stub": stub, "workers": 24, "paths": all_paths}, open(inp, "w"))
+    json.dump({"stub": stub, "workers": 24 if tier == "quick" else 96, "paths": all_paths}, open(inp, "w"))
     res = vlib.go_run(binary, "TestReplay", wd, env={"VERIF_IN": inp}, timeout=2400)
     verdict.add_all(res["mismatches"])
     c = res["counts"]
@@ -390,6 +390,7 @@ def run(tier):
 
 
 def replay(path):
+    path = os.path.abspath(path)
     wd = vlib.workdir(PROP + "-replay")
     binary = vlib.go_build(PKG, wd)
     mm = json.load(open(path))
